@@ -38,6 +38,8 @@ def cases(draw, tier="quick"):
         n = len(c["contracts"])
         k = draw(st.integers(2, 5))
         allocs = [[round(0.1 * (a + 1) + 0.07 * ci, 3) * (1 if (a + ci) % 2 == 0 else -1) for ci in range(n)] for a in range(k)]
+        if draw(st.sampled_from([False, True])):
+            allocs[draw(st.integers(1, k - 1))] = [0.0] * n       # a flat allocation that is NOT action 0 (the null action is action 0)
         c["space"] = ["discrete", allocs]
         c["actions"] = [draw(st.integers(0, k - 1)) for _ in c["actions"]]
     return c
